@@ -35,6 +35,7 @@ pub struct PeerHandler {
     own_id: [u8; PEER_ID_SIZE],
     peer_id: Option<[u8; PEER_ID_SIZE]>,
     info_hash: [u8; HASH_SIZE],
+    handshake_done: bool,
     pieces_num: usize,
     piece_tx: Option<PieceTx>,
     piece_rx: Option<PieceRx>,
@@ -163,6 +164,7 @@ impl PeerHandler {
             own_id,
             peer_id,
             info_hash,
+            handshake_done: false,
             pieces_num,
             piece_tx: None,
             piece_rx: None,
@@ -325,6 +327,14 @@ impl PeerHandler {
                     _ => 0,
                 };
 
+                // Nothing is handled (or answered) before peer introduce himself with valid handshake
+                if !self.handshake_done {
+                    match frame {
+                        Frame::Handshake(_) => (),
+                        _ => return Err(Error::HandshakeMissing.into()),
+                    }
+                }
+
                 let handled = match frame {
                     Frame::Handshake(handshake) => self.handle_handshake(&handshake).await?,
                     Frame::KeepAlive(_) => true,
@@ -354,6 +364,7 @@ impl PeerHandler {
         handshake: &Handshake,
     ) -> Result<bool, Box<dyn std::error::Error>> {
         handshake.validate(&self.info_hash, &self.peer_id)?;
+        self.handshake_done = true;
 
         let peer_init_handshake = self.peer_id.is_none();
         self.peer_id = Some(*handshake.peer_id());
